@@ -57,6 +57,17 @@ def render_ty(t):
         if t[1] == "Cow":
             return "Cow<'static, %s>" % render_ty(t[2])
         return "%s<%s>" % (t[1], render_ty(t[2]))
+    if k == "qptr":
+        q = QUALIFIED_PTR[t[1]]
+        if t[1] == "Cow":
+            return "%s<'static, %s>" % (q, render_ty(t[2]))
+        return "%s<%s>" % (q, render_ty(t[2]))
+    if k == "qoption":
+        return "std::option::Option<%s>" % render_ty(t[1])
+    if k == "qmap":
+        return "std::collections::HashMap<%s, %s>" % (render_ty(t[1]), render_ty(t[2]))
+    if k == "qprim":
+        return "std::string::String"
     if k == "ref":
         return "&'static %s" % render_ty(t[1])
     if k == "quser":
@@ -66,9 +77,21 @@ def render_ty(t):
     raise KeyError(k)
 
 
+QUALIFIED_PTR = {"Box": "std::boxed::Box", "Arc": "std::sync::Arc", "Rc": "::std::rc::Rc", "Cow": "std::borrow::Cow", "Cell": "std::cell::Cell", "RefCell": "cell::RefCell",
+                 "Mutex": "sync::Mutex", "RwLock": "std::sync::RwLock", "Weak": "std::sync::Weak"}
+
+
 def oracle(t):
     """expected RustType as a nested tuple; user names are ('name', idx)"""
     k = t[0]
+    if k == "qptr":
+        return oracle(t[2])
+    if k == "qoption":
+        return ("special", "Option", oracle(t[1]))
+    if k == "qmap":
+        return ("special", "HashMap", oracle(t[1]), oracle(t[2]))
+    if k == "qprim":
+        return ("special", "String")
     if k == "prim":
         return ("special", PRIMS[t[1]])
     if k in ("user", "quser"):
@@ -142,6 +165,10 @@ def unary(t, with_ptrs):
     out = [("vec", t), ("option", t), ("array", t, 3), ("slice", t), ("ref", t), ("map", ("prim", "String"), t), ("map", t, ("prim", "u32")), ("ugen", 1, (t,)), ("qvec", t)]
     for p in (PTRS if with_ptrs else ["Box", "Cow"]):
         out.append(("ptr", p, t))
+    # path-qualified spellings of the same constructors
+    for p in (PTRS if with_ptrs else ["Arc"]):
+        out.append(("qptr", p, t))
+    out += [("qoption", t), ("qmap", ("qprim",), t)]
     return out
 
 
